@@ -602,19 +602,22 @@ theorem decode_of_fields (s pl side castles ep half full : List Char)
       castles.Nodup))
     (hn : Fen.isNat half ∧ Fen.isNat full)
     (hep : epMarkOf stm ep = some mark) :
-    Fen.decode s = some
-      { board := board, stm := stm,
-        castleK := fun c => castles.contains (match c with | .white => 'K' | .black => 'k'),
-        castleQ := fun c => castles.contains (match c with | .white => 'Q' | .black => 'q'),
-        ep := mark } := by
+    ∃ q : Pos, Fen.decode s = some q ∧ q.board = board ∧ q.stm = stm ∧
+      q.castleK .white = castles.contains 'K' ∧ q.castleQ .white = castles.contains 'Q' ∧
+      q.castleK .black = castles.contains 'k' ∧ q.castleQ .black = castles.contains 'q' ∧
+      q.ep = mark := by
   simp only [epMarkOf] at hep
   unfold Fen.decode
   rw [htok]
   simp only [hpl, hside]
   rw [if_neg (Classical.not_not.2 hc), if_neg (Classical.not_not.2 hn)]
   cases hs : Fen.sqOfName? ep with
-  | none => simp only [hs] at hep ⊢; rw [hep]
-  | some e => simp only [hs] at hep ⊢; rw [hep]
+  | none =>
+    simp only [hs] at hep ⊢; simp only [hep]
+    exact ⟨_, rfl, rfl, rfl, rfl, rfl, rfl, rfl, rfl⟩
+  | some e =>
+    simp only [hs] at hep ⊢; simp only [hep]
+    exact ⟨_, rfl, rfl, rfl, rfl, rfl, rfl, rfl, rfl⟩
 
 theorem side_decode (c : Color) :
     (if sideStr c = ['w'] then some Color.white else if sideStr c = ['b'] then some Color.black
@@ -662,9 +665,37 @@ theorem decode_showBuilder (bd : Builder) :
       q.ep = bd.getEnPassant := by
   obtain ⟨board, hb, hboard⟩ := decodePlacement_placementStr bd.pieces
   obtain ⟨hK, hQ, hk, hq⟩ := castleField_contains bd.wcr bd.bcr
-  have h := decode_of_fields (showBuilder bd) _ _ _ _ _ _ board bd.stm bd.getEnPassant
-    (splitOn_space_showBuilderWith bd bd.epShown) hb (side_decode _)
-    (castleField_standard _ _) isNat_clocks (epMarkOf_epShown bd)
-  exact ⟨_, h, hboard, rfl, hK, hQ, hk, hq, rfl⟩
+  obtain ⟨q, h, h1, h2, h3, h4, h5, h6, h7⟩ :=
+    decode_of_fields (showBuilder bd) _ _ _ _ _ _ board bd.stm bd.getEnPassant
+      (splitOn_space_showBuilderWith bd bd.epShown) hb (side_decode _)
+      (castleField_standard _ _) isNat_clocks (epMarkOf_epShown bd)
+  exact ⟨q, h, fun s => by rw [h1]; exact hboard s, h2, h3.trans hK, h4.trans hQ, h5.trans hk,
+    h6.trans hq, h7⟩
+
+/-! ### the en-passant field in standard form -/
+
+theorem ep_target_facts : ∀ (c : Color) (f : Fin 8),
+    ((mkSq c.other.fourthRank f).ubackward c.other).getFile = f ∧
+    ((mkSq c.other.fourthRank f).ubackward c.other).getRank =
+      (match c with | .black => (2 : Fin 8) | .white => 5) ∧
+    ((mkSq c.other.fourthRank f).ubackward c.other).uforward c.other = mkSq c.other.fourthRank f := by
+  intro c
+  cases c
+  · decide
+  · decide
+
+/-- with a recorded file `f` the printed square is on that file, on rank 3 (`getRank = 2`) when Black
+is to move and on rank 6 (`getRank = 5`) when White is to move, directly behind the pawn's square
+`getEnPassant` -/
+theorem epShown_some (bb : Builder) (f : Fin 8) (h : bb.epFile = some f) :
+    ∃ e, bb.epShown = some e ∧ e.getFile = f ∧
+      e.getRank = (match bb.stm with | .black => (2 : Fin 8) | .white => 5) ∧
+      bb.getEnPassant = some (e.uforward bb.stm.other) := by
+  obtain ⟨h1, h2, h3⟩ := ep_target_facts bb.stm f
+  refine ⟨_, by rw [epShown_eq, h]; rfl, h1, h2, ?_⟩
+  rw [h3]; unfold Builder.getEnPassant; rw [h]; rfl
+
+theorem epShown_none (bb : Builder) (h : bb.epFile = none) : bb.epShown = none := by
+  rw [epShown_eq, h]; rfl
 
 end Chess
